@@ -25,3 +25,7 @@ def triage(prop, failures):
             if l not in lines:
                 lines.append(l)
     return lines, new
+
+
+def for_unit(unit_id):
+    return [f for f in load() if f.get('status', 'open') == 'open' and re.fullmatch(f['unit'], unit_id)]
